@@ -1,0 +1,19 @@
+// Verification hook (off by default).
+//
+// When SPECTRA_VERIF_SIM is defined, a verification harness provides the header
+// <spectra_verif_sim.h> on its include path, which defines
+//     SPECTRA_VERIF_EVENT(kind, obj)
+// Without the define the macro expands to nothing and the library is unchanged.
+
+#ifndef SPECTRA_VERIF_HOOK_H
+#define SPECTRA_VERIF_HOOK_H
+
+#ifdef SPECTRA_VERIF_SIM
+#include <spectra_verif_sim.h>
+#endif
+
+#ifndef SPECTRA_VERIF_EVENT
+#define SPECTRA_VERIF_EVENT(kind, obj) ((void) 0)
+#endif
+
+#endif  // SPECTRA_VERIF_HOOK_H
